@@ -32,6 +32,13 @@ def boundary_scripts():
         S.append(("blocks-%d" % d, "if true {" * d + "x := 1" + "}" * d + "\n"))
         S.append(("unary-%d" % d, "return " + "-" * d + "1\n"))
         S.append(("funcs-%d" % min(d, 200), "return " + "func() { return " * min(d, 200) + "1" + " }()" * min(d, 200) + "\n"))
+    # nesting a million deep: an error, not a stack the process cannot grow (a fatal error no caller can recover from)
+    d = 1000000
+    S += [("parens-deep", "return " + "(" * d + "1" + ")" * d + "\n"), ("blocks-deep", "if true {" * d + "x := 1" + "}" * d + "\n"),
+          ("arrays-deep", "return " + "[" * d + "]" * d + "\n"), ("maps-deep", "return " + "{a:" * d + "1" + "}" * d + "\n"),
+          ("unary-deep", "return " + "- " * d + "1\n"), ("funcs-deep", "return " + "func() { return " * (d // 4) + "1" + " }" * (d // 4) + "\n"),
+          ("calls-deep", "f := func(x) { return x }\nreturn " + "f(" * d + "1" + ")" * d + "\n"), ("index-deep", "a := [0]\nreturn " + "a[" * d + "0" + "]" * d + "\n"),
+          ("cond-deep", "return " + "true ? 1 : " * d + "2\n"), ("parens-open", "return " + "(" * d + "\n"), ("braces-open", "{" * d + "\n")]
     # scripts over the symbol table left by the setup script of the "reuse" mode (local zz, global gg, function yy)
     S += [("reuse-global", "return gg\n"), ("reuse-global-fn", "f := func() { return gg }\nreturn f()\n"), ("reuse-global-set", "gg = 3\nreturn [gg, \"s\"]\n"),
           ("reuse-local", "return zz\n"), ("reuse-fn", "return yy()\n"), ("reuse-global-decl", "global gg\nreturn gg\n")]
@@ -121,7 +128,7 @@ def run(rep, br, proofs, rng, tier):
                 ms = mods
                 if name in ("cyclic",): ms = None
                 c = mk_case("b.%s.%s.%s" % (name, fl, mode), "compile", fl, tr, mode, hexs(src.encode()), *mods)
-                c["src"] = src if len(src) < 2000 else name; c["name"] = name
+                c["src"] = src if len(src) < 2000 else name + " (%d bytes: %s ... %s)" % (len(src), src[:40], src[-20:].strip()); c["name"] = name
                 cases.append(c)
     # a builtin name bound at every level x a literal constant at every level x expression forms
     for name, src in scope_state_scripts(("len", "string") if tier == "quick" else ("len", "string", "error", "append")):
@@ -218,7 +225,7 @@ def run(rep, br, proofs, rng, tier):
     okc = sum(v for k, v in classes.items() if k == "ok")
     rep.coverage.update({
         "evaluations": len(cases) + lexcount, "short_strings_compiled": lexcount, "distinct_nontrivial": len(set(c["line"].split(" ", 3)[3] for c in cases)),
-        "rule": "boundary scripts at every operand-width limit (255/256/257 locals, parameters, destructured names, 254..257 call arguments and selectors, 65535..65537 literal elements / constants, deep nesting, constant errors, unterminated declaration groups, import cycles of length 1-4, unknown imports, every list of names or expressions (for-in, :=, =, var, global, catch, return, import) with 0..5 elements, a name bound again by every binding form) x optimizer off/on/budget 1/3 x trace x fresh / re-used symbol table / Eval fragment; generated valid and mutated near-valid programs; token soup and arbitrary byte strings; every byte string up to length %d over the 13 lexically significant bytes (/ * CR LF ` \" ' \\ a 0 . space); every successful Bytecode is checked function by function by the Coq validator wf_function; distinct = distinct (configuration, source)" % (5 if tier == "quick" else 6),
+        "rule": "boundary scripts at every operand-width limit (255/256/257 locals, parameters, destructured names, 254..257 call arguments and selectors, 65535..65537 literal elements / constants, deep nesting incl. one million levels of every bracketing construct, constant errors, unterminated declaration groups, import cycles of length 1-4, unknown imports, every list of names or expressions (for-in, :=, =, var, global, catch, return, import) with 0..5 elements, a name bound again by every binding form) x optimizer off/on/budget 1/3 x trace x fresh / re-used symbol table / Eval fragment; generated valid and mutated near-valid programs; token soup and arbitrary byte strings; every byte string up to length %d over the 13 lexically significant bytes (/ * CR LF ` \" ' \\ a 0 . space); every successful Bytecode is checked function by function by the Coq validator wf_function; distinct = distinct (configuration, source)" % (5 if tier == "quick" else 6),
         "samples": [cases[0]["line"][:200], cases[len(cases)//2]["line"][:300], cases[-1]["line"][:200]],
         "outcome_classes": classes, "functions_validated": len(wfcases), "functions_rejected_by_validator": len(bad_wf),
         "hangs_or_crashes": len(culprits), "oracle_failures": len(fails)})
